@@ -6,9 +6,9 @@ import common, gen_core, gen_tlc
 from common import Inconclusive, log
 
 # number of TLC-simulated behaviours of the design model replayed on the real proxy (quick, thorough)
-GEN_N = (150, 4000)
+GEN_N = (100, 4000)
 # random-walk scenarios additionally checked for conformance with the design model (quick, thorough)
-CONF_RW = (40, 400)
+CONF_RW = (25, 400)
 
 # property -> list of (profile, quick_count, thorough_count)
 PLANS = {
